@@ -388,7 +388,7 @@ def DFile.ofManifest (m : DManifest) : DFile :=
 
 theorem ofManifest_hasCks (m : DManifest) : (DFile.ofManifest m).hasCks = m.hasCks := by
   unfold DFile.ofManifest DFile.hasCks
-  cases m.hasCks <;> decide
+  cases m.hasCks <;> simp
 
 theorem serDFile_ofManifest (m : DManifest) (h : DManifestWf m) :
     serDFile (DFile.ofManifest m) = serDownload m := by
